@@ -338,6 +338,7 @@ def run(ctx) -> None:
     # ---------------- R-AXISNORM
     FULL = ("self.shape", "self.array.shape", "self._array.shape")
     n_norm = 0
+    signs = []  # (function, conditional expression, the arm that adds the rank)
     for mname in ("squeeze", "_reduction"):
         fn = repo.method(ARR, "ArrayObject", mname)
         sites = []
@@ -351,6 +352,7 @@ def run(ctx) -> None:
                         for side in (arm.left, arm.right):
                             if isinstance(side, ast.Call) and call_name(side) == "len" and side.args:
                                 sites.append((c, side.args[0]))
+                                signs.append((fn, c, arm))
         ctx.require(sites, f"{fn.qualname}: no normalisation of the axis argument found")
         for c, shape_expr in sites:
             n_norm += 1
@@ -369,6 +371,27 @@ def run(ctx) -> None:
                       f"the axis argument is normalised against `{shown[:60]}`, not the full array shape: a negative axis "
                       "addresses a different dimension than in NumPy (base axes can be hit, ensemble axes missed)",
                       key_detail="axisnorm")
+
+    # the sign test sends exactly the negative axes to the arm that adds the rank: 0 and 1 stay, -1 is shifted
+    for fn_, c_, shifted in signs:
+        names_ = sorted({x.id for x in ast.walk(c_.test) if isinstance(x, ast.Name)})
+        bad = []
+        if len(names_) == 1:
+            for val, want_shift in ((0, False), (1, False), (-1, True), (-2, True)):
+                try:
+                    taken = c_.body if _py_eval(c_.test, {names_[0]: val}) else c_.orelse
+                except AnalysisError:
+                    bad = None
+                    break
+                if (taken is shifted) != want_shift:
+                    bad.append(f"axis {val} {'is' if taken is shifted else 'is not'} shifted by the rank")
+        if bad is None or len(names_) != 1:
+            raise AnalysisError(f"{fn_.qualname}: cannot evaluate the sign test `{norm_text(c_.test)}` of the axis "
+                                "normalisation")
+        ctx.check(not bad, "R-AXISNORM", f"{fn_.qualname}:sign test of the axis normalisation", fn_.loc(c_),
+                  f"`{norm_text(c_.test)}` shifts exactly the negative axes",
+                  f"`{norm_text(c_)[:70]}`: " + "; ".join(bad) + " — NumPy counts negative axes from the end and leaves "
+                  "0, 1, ... alone", key_detail="sign")
 
     # expand_dims normalises a negative axis against the *old* rank (np.expand_dims counts positions in the result):
     # confirmed on the tree (expand_dims((-2,)) on (2,3,ny,nx) gives (2,3,1,ny,nx), NumPy would address a base axis).
